@@ -37,7 +37,16 @@ def run(ctx):
         ctx.touch(f)
     for o in fl.obligations:
         ctx.inst(o.rule, o.func, o.node, o.what)
-    for pr in fl.problems:
+    definite = [pr for pr in fl.problems if not pr.undecided]
+    undecided = [pr for pr in fl.problems if pr.undecided]
+    for pr in definite:
+        ctx.viol(pr.rule, pr.func, pr.node, pr.why, construct=pr.construct)
+    if undecided and not definite:
+        # the abstract domain (levels, stop/maxlevel marks) cannot be related to this code's data structures:
+        # that is "no verdict", not a violation
+        raise AnalysisError("C06 cannot track this implementation: " + "; ".join(
+            "%s %s:%s `%s` — %s" % (pr.rule, pr.func.qual, getattr(pr.node, "lineno", "?"), pr.construct[:60], pr.why[:120]) for pr in undecided[:4]))
+    for pr in undecided:
         ctx.viol(pr.rule, pr.func, pr.node, pr.why, construct=pr.construct)
     ctx.extra["inferred_preconditions(checked, admitted)"] = {f.qual: list(v) for f, v in fl.pre.items()}
     # ---- S2 second half: nothing but yields is control-dependent on filter_
